@@ -20,11 +20,17 @@ var (
 	metricPool = []string{"m0", "m1", "m2"}
 )
 
+type gapPoint struct {
+	t      int64
+	series int
+}
+
 type setInfo struct {
 	times  []int64 // every sample timestamp (sorted, distinct)
 	minT   int64
 	maxT   int64
 	names  []string // metric names present
+	lastBefore []gapPoint // samples followed by a gap longer than the look-back (or by nothing)
 	hasGap bool
 	hasStale bool
 	hasReset bool
@@ -158,6 +164,16 @@ func genSet(r *hx.Rng, big bool) (*sampleSet, *setInfo) {
 	}
 	sort.Slice(info.times, func(i, j int) bool { return info.times[i] < info.times[j] })
 	info.minT, info.maxT = info.times[0], info.times[len(info.times)-1]
+	for si, sr := range set.series {
+		for i, p := range sr.points {
+			if isStale(p.v) {
+				continue
+			}
+			if i == len(sr.points)-1 || sr.points[i+1].t-p.t > lookbackMs {
+				info.lastBefore = append(info.lastBefore, gapPoint{p.t, si})
+			}
+		}
+	}
 	return set, info
 }
 
@@ -167,6 +183,7 @@ type exprGen struct {
 	r    *hx.Rng
 	info *setInfo
 	set  *sampleSet
+	hint *series // the query time was chosen for this series: selectors prefer to select it
 }
 
 func (g *exprGen) pick(xs []string) string { return xs[g.r.Intn(len(xs))] }
@@ -201,7 +218,15 @@ func (g *exprGen) genRx(ln, lv string) *rx {
 func (g *exprGen) genSelector() *selector {
 	s := &selector{}
 	name := g.pick(g.info.names)
-	if g.r.Chance(8) && len(g.info.names) > 1 {
+	hinted := g.hint != nil && g.r.Chance(85)
+	if hinted {
+		for _, l := range g.hint.labels {
+			if l.name == "__name__" {
+				name = l.value
+			}
+		}
+	}
+	if !hinted && g.r.Chance(8) && len(g.info.names) > 1 {
 		// a regex on the metric name
 		s.matchers = append(s.matchers, matcher{label: "__name__", kind: "re", re: &rx{kind: "alt", a: &rx{kind: "lit", s: g.info.names[0]}, b: &rx{kind: "lit", s: g.info.names[1]}}})
 	} else {
@@ -221,6 +246,9 @@ func (g *exprGen) genSelector() *selector {
 	// from them, so that most selectors select something
 	var present []label
 	for _, sr := range g.set.series {
+		if hinted && labelsKey(sr.labels) != labelsKey(g.hint.labels) {
+			continue
+		}
 		nm0 := ""
 		for _, l := range sr.labels {
 			if l.name == "__name__" {
@@ -264,7 +292,7 @@ func (g *exprGen) genSelector() *selector {
 		}
 		s.matchers = append(s.matchers, m)
 	}
-	if g.r.Chance(25) {
+	if (!hinted && g.r.Chance(25)) || (hinted && g.r.Chance(5)) {
 		s.offset = []int64{30_000, 300_000, 420_000, 1, 60_000, 15_000, -30_000, 1_500}[g.r.Intn(8)]
 	}
 	return s
@@ -274,7 +302,12 @@ var rangeFns = []string{"rate", "increase", "delta", "irate", "idelta",
 	"sum_over_time", "avg_over_time", "min_over_time", "max_over_time", "count_over_time", "last_over_time", "present_over_time"}
 
 func (g *exprGen) genRange(t int64) int64 {
-	switch g.r.Intn(10) {
+	switch g.r.Intn(12) {
+	case 10, 11: // boundary exact: the window starts on a sample (close to t)
+		if d := t - g.nearTime(t-int64(30_000+g.r.Intn(120_000))); d > 0 {
+			return d
+		}
+		return 75_000
 	case 0:
 		return 60_000
 	case 1:
@@ -407,6 +440,12 @@ func (g *exprGen) genBin(t int64, depth int) expr {
 func (g *exprGen) evalTime() int64 {
 	ts := g.info.times
 	base := ts[g.r.Intn(len(ts))]
+	if len(g.info.lastBefore) > 0 && g.r.Chance(15) {
+		// the sample is the last one before a gap: exactly look-back old, one ms more, one ms less
+		b := g.info.lastBefore[g.r.Intn(len(g.info.lastBefore))]
+		g.hint = &g.set.series[b.series]
+		return b.t + lookbackMs + int64(g.r.Intn(3)) - 1
+	}
 	switch g.r.Intn(10) {
 	case 0, 1:
 		return base // hits a sample
@@ -433,6 +472,7 @@ func (g *exprGen) evalTime() int64 {
 }
 
 func (g *exprGen) genQuery() *query {
+	g.hint = nil
 	t := g.evalTime()
 	depth := 0
 	switch x := g.r.Intn(10); {
@@ -445,7 +485,7 @@ func (g *exprGen) genQuery() *query {
 	}
 	e := g.genVector(t, depth)
 	q := &query{e: e, text: e.text(), start: t, end: t, lb: lookbackMs}
-	if g.r.Chance(10) {
+	if g.hint == nil && g.r.Chance(10) {
 		q.lb = []int64{60_000, 120_000, 600_000, 45_500}[g.r.Intn(4)]
 	}
 	if g.r.Chance(40) {
